@@ -298,13 +298,13 @@ fn env_conversion(run: &Run) -> u64 {
                         env.parent_cdh.coin_data.denom = *denom;
                         env.parent_cdh.coin_data.value = CoinValue(u128::MAX >> di);
                         env.parent_cdh.coin_data.additional_data = vec![1, 2, 3].into();
-                        env.spender_index = (n_in * 50) as u8;
+                        env.spender_index = (n_in * 50) as u64;
                         env.last_header.network = if di % 2 == 0 { NetID::Mainnet } else { NetID::Testnet };
                         env.last_header.fee_multiplier = u128::MAX - di as u128;
                         let real_env = CovenantEnv {
                             parent_coinid: env.parent_coinid,
                             parent_cdh: env.parent_cdh.clone(),
-                            spender_index: env.spender_index,
+                            spender_index: env.spender_index as u8,
                             last_header: env.last_header,
                         };
                         run.transition();
@@ -345,7 +345,7 @@ pub fn child_main(args: &[String]) {
     let (name, alpha) = alphabets().into_iter().nth(ai).expect("alphabet index");
     let heap = env_heap(&sample_tx(), Some(&sample_env()));
     let e = sample_env();
-    let real_env = CovenantEnv { parent_coinid: e.parent_coinid, parent_cdh: e.parent_cdh.clone(), spender_index: e.spender_index, last_header: e.last_header };
+    let real_env = CovenantEnv { parent_coinid: e.parent_coinid, parent_cdh: e.parent_cdh.clone(), spender_index: e.spender_index as u8, last_header: e.last_header };
     let tx = sample_tx();
     let k = alpha.len();
     let mut n = 0u64;
